@@ -230,6 +230,19 @@ func verifC04BundleSeeds() (seeds [][]byte) {
 		panic(err)
 	}
 	seeds = append(seeds, verifC04Marshal(&c))
+
+	// D: the same without CRC, so that a lying count inside the record survives the block check and reaches
+	// the administrative record decoder the node runs on an accepted bundle
+	d, err := Builder().
+		Source("dtn://rep/").Destination("dtn://src/app").
+		CreationTimestampEpoch().Lifetime("10m").
+		BundleAgeBlock(uint64(5)).
+		StatusReport(b, DeletedBundle, LifetimeExpired, DtnTime(2000)).
+		Build()
+	if err != nil {
+		panic(err)
+	}
+	seeds = append(seeds, verifC04Marshal(&d))
 	return
 }
 
